@@ -157,20 +157,35 @@ pub fn gen_error(r: &mut Rng, index: u64) -> AError {
     AError { code, index, command, message }
 }
 
+/// Output a failing command printed before its ACK: at least one field line or a binary part.
+pub fn gen_partial(r: &mut Rng) -> AFrame {
+    let mut f = gen_frame(r, true);
+    f.fields.truncate(4);
+    if f.fields.is_empty() && f.binary.is_none() {
+        f.fields.push(("file".to_string(), "a.mp3".to_string()));
+    }
+    if let Some((p, _)) = f.binary.as_mut() {
+        *p = (*p).min(f.fields.len());
+    }
+    f
+}
+
 pub fn gen_response(r: &mut Rng) -> AResponse {
     let list = r.chance(2, 5);
     let fail = r.chance(1, 5);
     if !list {
         if fail {
-            AResponse { frames: vec![], error: Some(gen_error(r, 0)), form: Form::Single }
+            let partial = if r.chance(1, 3) { Some(gen_partial(r)) } else { None };
+            AResponse { frames: vec![], error: Some(gen_error(r, 0)), form: Form::Single, partial }
         } else {
-            AResponse { frames: vec![gen_frame(r, true)], error: None, form: Form::Single }
+            AResponse { frames: vec![gen_frame(r, true)], error: None, form: Form::Single, partial: None }
         }
     } else {
         let n = if fail { r.below(6) } else { r.range(1, 8) };
         let frames: Vec<AFrame> = (0..n).map(|_| gen_frame(r, true)).collect();
         let error = if fail { Some(gen_error(r, n as u64)) } else { None };
-        AResponse { frames, error, form: Form::List }
+        let partial = if error.is_some() && r.chance(1, 3) { Some(gen_partial(r)) } else { None };
+        AResponse { frames, error, form: Form::List, partial }
     }
 }
 
@@ -193,6 +208,7 @@ pub fn gen_edge_session(r: &mut Rng) -> Vec<AResponse> {
             frames: vec![AFrame { fields: vec![("a".into(), "b".into())], binary: None }, AFrame { fields: vec![("v".into(), String::new())], binary: None }],
             error: None,
             form: Form::List,
+            partial: None,
         },
     };
     // pad to target
